@@ -34,8 +34,11 @@ def run_inprocess(argv, stdin_text=''):
 def run_subprocess(argv, stdin_text='', hashseed='0', timeout=120):
     repo = os.environ.get('PV_REPO', '/repo')
     env = dict(os.environ, PYTHONPATH=repo, PYTHONHASHSEED=str(hashseed), PYTHONIOENCODING='utf-8', PYTHONDONTWRITEBYTECODE='1')
-    p = subprocess.run([sys.executable, '-m', 'penman'] + list(argv), input=stdin_text.encode('utf-8'), env=env,
-                       stdout=subprocess.PIPE, stderr=subprocess.PIPE, timeout=timeout, cwd=repo)
+    try:
+        p = subprocess.run([sys.executable, '-m', 'penman'] + list(argv), input=stdin_text.encode('utf-8'), env=env,
+                           stdout=subprocess.PIPE, stderr=subprocess.PIPE, timeout=timeout, cwd=repo)
+    except subprocess.TimeoutExpired:
+        return None          # a time budget hit is inconclusive, never a violation
     return p.returncode, p.stdout.decode('utf-8'), p.stderr.decode('utf-8', 'replace')
 
 
